@@ -102,6 +102,23 @@ pub fn run(prop: &str, tier: Tier, seed: u64, replay: Option<&str>) -> i32
         };
         return run_check(&spec, tier, seed, replay);
     }
+    if prop == "C10"
+    {
+        let engine = crate::rc10::RcEngine;
+        let spec = CheckSpec{
+            prop: "C10",
+            engine: &engine,
+            quick_cases: 20_000,
+            thorough_cases: 200_000,
+            rule: "cases = histories of prepare / clone / drop / garbage-collect / app.update / manual-despawn / spawn-child / reparent / worker-thread-drop operations decoded from proptest byte strings; after every operation the live set must equal the reference-count model; non-trivial = >= 1 clone dropped out of creation order and >= 2 collections; distinct = distinct case hashes".into(),
+            assumptions: vec![
+                "at most one AutoDespawner::prepare per entity (two prepares are two independent counts)".into(),
+                "thread interleavings are sampled by the OS scheduler, not enumerated; the checked invariants are schedule independent".into(),
+                "a counted child dies with its collected ancestor (despawn_recursive)".into(),
+            ],
+        };
+        return run_check(&spec, tier, seed, replay);
+    }
     eprintln!("unknown property {prop}");
     2
 }
